@@ -25,7 +25,7 @@ if go test -vet=off -count=1 "$@" >/tmp/try_demo_patched.log 2>&1; then echo "3 
 git checkout -q -- . && git clean -fdq
 cd /repo
 git diff --quiet || { echo "/repo not clean"; exit 2; }
-trap 'git -C /repo checkout -q -- .' EXIT
+trap 'git -C /repo checkout -q -- . ; git -C /repo clean -fdq' EXIT
 git apply "$patch" || { echo "patch does not apply to /repo"; exit 2; }
 hits=""
 for i in 01 02 03 04 05 06 07 08 09 10 11 12 13 14 15 16 17 18; do
@@ -35,5 +35,5 @@ for i in 01 02 03 04 05 06 07 08 09 10 11 12 13 14 15 16 17 18; do
     echo "$out" | grep -v -e '^VIOLATION' -e WARNING | grep '\[' | head -2 | cut -c1-330 | sed "s/^/     C$i: /"
   fi
 done
-git checkout -q -- .
+git checkout -q -- . && git clean -fdq
 echo "4 checks firing:${hits:- NONE}"
